@@ -75,6 +75,110 @@ func collectMapOps(fns []*ssa.Function) []*mapOps {
 	return out
 }
 
+// mapLook is a comma-ok lookup of the entry stored under a key, either a direct
+// map lookup or a call of a lookup helper (a function that does nothing but such
+// a lookup under the map lock and returns its two results).
+type mapLook struct {
+	at      ssa.Instruction
+	val, ok ssa.Value
+	key     ssa.Value
+	field   string
+}
+
+// lookupHelper recognises `func (c *T) lookup(key) (v, ok)`.
+func lookupHelper(g *ssa.Function) (field string, keyParam int, ok bool) {
+	if g == nil || g.Blocks == nil || originPkgPath(g) != cachePkg {
+		return "", 0, false
+	}
+	var lk *ssa.Lookup
+	n := 0
+	eachInstr(g, func(in ssa.Instruction) {
+		switch x := in.(type) {
+		case *ssa.Lookup:
+			if _, tracked := trackedMapField(x.X); tracked && x.CommaOk {
+				lk = x
+				n++
+			}
+		case *ssa.MapUpdate:
+			n += 10
+		}
+	})
+	if n != 1 {
+		return "", 0, false
+	}
+	idx := -1
+	for i, p := range g.Params {
+		if sameVal(lk.Index, p) {
+			idx = i
+		}
+	}
+	if idx < 0 {
+		return "", 0, false
+	}
+	good := false
+	eachInstr(g, func(in ssa.Instruction) {
+		ret, isRet := in.(*ssa.Return)
+		if !isRet || isRecoverReturn(ret) {
+			return
+		}
+		vals := retVals(ret)
+		if len(vals) == 2 {
+			e0, ok0 := vals[0].(*ssa.Extract)
+			e1, ok1 := vals[1].(*ssa.Extract)
+			if ok0 && ok1 && e0.Tuple == ssa.Value(lk) && e1.Tuple == ssa.Value(lk) && e0.Index == 0 && e1.Index == 1 {
+				good = true
+			}
+		}
+	})
+	f, _ := trackedMapField(lk.X)
+	return f, idx, good
+}
+
+func lookupsIn(f *ssa.Function) []mapLook {
+	var out []mapLook
+	eachInstr(f, func(in ssa.Instruction) {
+		switch x := in.(type) {
+		case *ssa.Lookup:
+			if fld, tracked := trackedMapField(x.X); tracked && x.CommaOk {
+				ml := mapLook{at: x, key: x.Index, field: fld}
+				if e := extractOf(x, 0); e != nil {
+					ml.val = e
+				}
+				if e := extractOf(x, 1); e != nil {
+					ml.ok = e
+				}
+				out = append(out, ml)
+			}
+		case *ssa.Call:
+			if sc := staticCallee(x); sc != nil {
+				if fld, kp, ok := lookupHelper(unwrapSynthetic(sc)); ok {
+					args := callArgs(x)
+					ml := mapLook{at: x, key: args[kp], field: fld}
+					if e := extractOf(x, 0); e != nil {
+						ml.val = e
+					}
+					if e := extractOf(x, 1); e != nil {
+						ml.ok = e
+					}
+					out = append(out, ml)
+				}
+			}
+		}
+	})
+	return out
+}
+
+// acctCalls: calls in f to accounting helpers of the given kind (by effect).
+func acctCalls(f *ssa.Function, kind string) []*ssa.Call {
+	var out []*ssa.Call
+	eachInstr(f, func(in ssa.Instruction) {
+		if c, ok := in.(*ssa.Call); ok && callAcctKind(c) == kind {
+			out = append(out, c)
+		}
+	})
+	return out
+}
+
 func callsNamed(f *ssa.Function, name string) []*ssa.Call {
 	var out []*ssa.Call
 	eachInstr(f, func(in ssa.Instruction) {
@@ -140,16 +244,17 @@ func checkC12(c *Ctx, r *Report) {
 			key := fmt.Sprintf("%s: insert into %s", fnKey(f), mk)
 			pos := c.InstrPos(u)
 			// (a) lookup of the same key in the same map
-			var L *ssa.Lookup
-			for _, l := range mo.lookups {
-				lk, _ := trackedMapField(l.X)
-				if lk == mk && sameVal(l.Index, u.Key) && l.CommaOk && instrDominates(l, u) {
+			var L *mapLook
+			looks := lookupsIn(f)
+			for i := range looks {
+				l := &looks[i]
+				if l.field == mk && sameVal(l.key, u.Key) && instrDominates(l.at, u) {
 					L = l
 				}
 			}
-			adds := callsNamed(f, cachePkg+".addCacheSize")
-			incs := callsNamed(f, cachePkg+".incrementCacheEntries")
-			decs := callsNamed(f, cachePkg+".decrementCacheSize")
+			adds := acctCalls(f, "addSize")
+			incs := acctCalls(f, "incEntries")
+			decs := acctCalls(f, "subSize")
 			var problems []string
 			if L == nil {
 				// alternative accepted form: removal routine called with the same key before the insert
@@ -161,12 +266,12 @@ func checkC12(c *Ctx, r *Report) {
 					problems = append(problems, "no lookup of the existing entry under the same key before the insert: an overwrite adds the new size on top of the old one and counts the entry twice")
 				}
 			} else {
-				if !li.HeldMustX(L)["S"] {
-					problems = append(problems, "the lookup of the existing entry at "+c.InstrPos(L)+" is made without the key's shard lock (must-hold="+li.HeldMust(L).String()+"): its answer can be stale by the time the map is changed, so an overwrite is counted as a new entry (or the other way round) and the counters drift")
+				if !li.HeldMustX(L.at)["S"] {
+					problems = append(problems, "the lookup of the existing entry at "+c.InstrPos(L.at)+" is made without the key's shard lock (must-hold="+li.HeldMust(L.at).String()+"): its answer can be stale by the time the map is changed, so an overwrite is counted as a new entry (or the other way round) and the counters drift")
 				}
-				okv := ssa.Value(extractOf(L, 1))
-				old := ssa.Value(extractOf(L, 0))
-				if extractOf(L, 1) == nil || extractOf(L, 0) == nil {
+				okv := L.ok
+				old := L.val
+				if okv == nil || old == nil {
 					problems = append(problems, "result of the existing-entry lookup is not used")
 				} else {
 					found := false
@@ -234,24 +339,25 @@ func checkC12(c *Ctx, r *Report) {
 			mk, _ := trackedMapField(d.Call.Args[0])
 			key := fmt.Sprintf("%s: delete from %s", fnKey(f), mk)
 			pos := c.InstrPos(d)
-			var L *ssa.Lookup
-			for _, l := range mo.lookups {
-				lk, _ := trackedMapField(l.X)
-				if lk == mk && sameVal(l.Index, d.Call.Args[1]) && l.CommaOk {
+			var L *mapLook
+			looks := lookupsIn(f)
+			for i := range looks {
+				l := &looks[i]
+				if l.field == mk && sameVal(l.key, d.Call.Args[1]) {
 					L = l
 				}
 			}
-			decE := callsNamed(f, cachePkg+".decrementCacheEntries")
-			decS := callsNamed(f, cachePkg+".decrementCacheSize")
+			decE := acctCalls(f, "decEntries")
+			decS := acctCalls(f, "subSize")
 			var problems []string
-			if L == nil || extractOf(L, 0) == nil || extractOf(L, 1) == nil {
+			if L == nil || L.val == nil || L.ok == nil {
 				problems = append(problems, "the entry being removed is not looked up under the same key (size to subtract cannot be the recorded one)")
 			} else {
-				if !li.HeldMustX(L)["S"] {
-					problems = append(problems, "the lookup of the existing entry at "+c.InstrPos(L)+" is made without the key's shard lock (must-hold="+li.HeldMust(L).String()+"): its answer can be stale by the time the map is changed, so an overwrite is counted as a new entry (or the other way round) and the counters drift")
+				if !li.HeldMustX(L.at)["S"] {
+					problems = append(problems, "the lookup of the entry being removed at "+c.InstrPos(L.at)+" is made without the key's shard lock")
 				}
-				okv := ssa.Value(extractOf(L, 1))
-				old := ssa.Value(extractOf(L, 0))
+				okv := L.ok
+				old := L.val
 				if len(decE) == 0 {
 					problems = append(problems, "no decrementCacheEntries")
 				}
@@ -292,7 +398,6 @@ func checkC12(c *Ctx, r *Report) {
 
 	// ---- R4: shard lock must be held at every mutation and helper call
 	n4 := 0
-	helperNames := map[string]bool{cachePkg + ".addCacheSize": true, cachePkg + ".decrementCacheSize": true, cachePkg + ".incrementCacheEntries": true, cachePkg + ".decrementCacheEntries": true}
 	for _, f := range cacheFns {
 		eachInstr(f, func(in ssa.Instruction) {
 			what := ""
@@ -306,8 +411,8 @@ func checkC12(c *Ctx, r *Report) {
 					if mk, ok := trackedMapField(x.Call.Args[0]); ok {
 						what = "delete from " + mk
 					}
-				} else if helperNames[calleeName(x)] {
-					what = "call " + strings.TrimPrefix(calleeName(x), cachePkg+".")
+				} else if k := callAcctKind(x); k != "" {
+					what = "accounting " + k
 				}
 			}
 			if what == "" {
@@ -384,11 +489,11 @@ func n4ord(f *ssa.Function, target ssa.Instruction) int {
 	cnt := 0
 	name := ""
 	if c, ok := target.(*ssa.Call); ok {
-		name = calleeName(c)
+		name = callAcctKind(c)
 	}
 	out := 0
 	eachInstr(f, func(in ssa.Instruction) {
-		if c, ok := in.(*ssa.Call); ok && calleeName(c) == name && name != "" {
+		if c, ok := in.(*ssa.Call); ok && callAcctKind(c) == name && name != "" {
 			cnt++
 			if in == target {
 				out = cnt
@@ -432,7 +537,6 @@ func removalBefore(c *Ctx, li *LockInfo, f *ssa.Function, u *ssa.MapUpdate, ops 
 
 func checkCounterOwnership(c *Ctx, r *Report, li *LockInfo) {
 	mutators := map[string]bool{"Add": true, "Sub": true, "Set": true, "Increment": true, "Decrement": true, "Swap": true, "CompareAndSwap": true, "Store": true}
-	helperFns := map[string]bool{cachePkg + ".addCacheSize": true, cachePkg + ".decrementCacheSize": true, cachePkg + ".incrementCacheEntries": true, cachePkg + ".decrementCacheEntries": true}
 	nBS, nMet := 0, 0
 	for _, f := range li.Fns {
 		fk := fnKey(f)
@@ -450,8 +554,8 @@ func checkCounterOwnership(c *Ctx, r *Report, li *LockInfo) {
 					switch x := ref.(type) {
 					case *ssa.Call:
 						n := calleeName(x)
-						if helperFns[n] && len(x.Call.Args) > 0 && x.Call.Args[0] == ssa.Value(fa) {
-							r.OkT("C12.R3", key+" via "+strings.TrimPrefix(n, cachePkg+"."), c.InstrPos(x), "passed to accounting helper")
+						if k := callAcctKind(x); (k == "addSize" || k == "subSize") && len(x.Call.Args) > 0 && x.Call.Args[0] == ssa.Value(fa) {
+							r.OkT("C12.R3", key+" via "+k+" helper", c.InstrPos(x), "passed to accounting helper")
 						} else if strings.HasSuffix(n, "atomics.Int64).Get") {
 							r.OkT("C12.R3", key+" via Get", c.InstrPos(x), "read-only")
 						} else {
@@ -481,10 +585,10 @@ func checkCounterOwnership(c *Ctx, r *Report, li *LockInfo) {
 					nMet++
 					key := fmt.Sprintf("%s mutates %s via %s", fk, fkey, m)
 					switch {
-					case helperFns[fk]:
-						r.OkT("C12.R3", key, c.InstrPos(call), "inside accounting helper")
-					case m == "Set" && strings.HasPrefix(fk, "(*"+cachePkg+".cacheJanitor)") && strings.HasSuffix(fkey, "BytesCached") && len(call.Call.Args) == 2 && fromGetCacheSize(call.Call.Args[1]):
-						r.Ok("C12.R3", key, c.InstrPos(call), "janitor republishes getCacheSize()")
+					case acctKind(f) != "":
+						r.OkT("C12.R3", fmt.Sprintf("%s helper mutates %s via %s", acctKind(f), fkey, m), c.InstrPos(call), "inside accounting helper")
+					case m == "Set" && originPkgPath(f) == cachePkg && strings.HasSuffix(fkey, "BytesCached") && len(call.Call.Args) == 2 && fromGetCacheSizeIP(li, f, call.Call.Args[1]):
+						r.Ok("C12.R3", "republish of getCacheSize() into "+fkey, c.InstrPos(call), "janitor republishes getCacheSize()")
 					default:
 						r.Fail("C12.R3", key, c.InstrPos(call), "metric mutated outside the accounting helpers")
 					}
@@ -501,6 +605,38 @@ func topFn(f *ssa.Function) *ssa.Function {
 		f = f.Parent()
 	}
 	return f
+}
+
+// fromGetCacheSizeIP: as fromGetCacheSize, or v is a parameter and every caller passes such a value.
+func fromGetCacheSizeIP(li *LockInfo, f *ssa.Function, v ssa.Value) bool {
+	if fromGetCacheSize(v) {
+		return true
+	}
+	p, ok := v.(*ssa.Parameter)
+	if !ok {
+		return false
+	}
+	idx := -1
+	for i, q := range f.Params {
+		if q == p {
+			idx = i
+		}
+	}
+	cs := li.Callers[f]
+	if len(cs) == 0 {
+		return false
+	}
+	for _, s := range cs {
+		call, ok := asCall(s.in)
+		if !ok {
+			return false
+		}
+		a := callArgs(call)
+		if idx >= len(a) || !fromGetCacheSize(a[idx]) {
+			return false
+		}
+	}
+	return true
 }
 
 func fromGetCacheSize(v ssa.Value) bool {
